@@ -614,6 +614,9 @@ class Node:
             return None
 
     def _flag_peer_as_connected(self, conn: PeerConnection):
+        # the wait for the CEA starts now, not when the connection attempt
+        # was started
+        conn.reset_last_read()
         conn.state = PEER_CONNECTED
         peer = self._find_connection_peer(conn)
         if peer:
